@@ -106,11 +106,12 @@ def conditions(tier):
     if tier == 'quick':
         plans = [('k2', ('d1', 'd2'), True, False, [('d1_f', range(5)), ('vp', (0,)),
                                                     ('d1_stray_manifest', (False, True))]),
-                 ('k2s', ('d1', 'd2'), False, True, [('vp', (1,)), ('d1_f', range(5))]),
+                 # sub-directory scan next to a sibling whose name merely starts like it
+                 ('k2s', ('d1', 'd1x'), False, True, [('vp', (1,)), ('d1_f', range(5))]),
                  ('k1t', ('d1',), True, True, [('vp', (0,))])]
     else:
-        plans = [('k2', ('d1', 'd2'), True, True,
-                  [('d1_f', range(5)), ('d2_f', range(5)), ('vp', range(2))]),
+        plans = [('k2', ('d1', 'd1x'), True, True,
+                  [('d1_f', range(5)), ('d1x_f', range(5)), ('vp', range(2))]),
                  ('k3', ('a', 'b', 'c'), False, False,
                   [('a_f', range(5)), ('b_f', range(5)), ('vp', (0,))])]
     for pname, dirs, wm, wt, parts in plans:
